@@ -57,30 +57,22 @@ theorem inv_tallyOne {env : Env} {s s' : St} {u : String} (hi : Inv s) (h : tall
   split at hs3
   · -- rejected
     have m1 := mid_retag_terminal hi hmem hun .rej rfl s.now
-    split at hs3
-    · cases hs3
-    rename_i hnp
     simp only [Res.ok.injEq] at hs3
     subst hs3
     generalize hLdef : invsOf s it.uri = L at *
     by_cases hn0 : L.length = 0
-    · -- no challenger: only reachable with an empty publish collateral
+    · -- no challenger (a re-imported item): nothing is paid, the whole publish collateral becomes dust
       have hLnil : L = [] := List.eq_nil_of_length_eq_zero hn0
-      have hpubnil : it.pubColl = [] := by
-        cases hp : it.pubColl with
-        | nil => rfl
-        | cons c r =>
-          exfalso
-          apply hnp
-          exact ⟨by simp [hn0], by simp [hp]⟩
       subst hLnil
       simp only [List.foldl_nil]
       apply m1.toDust
-      · intro d; rw [hE d]; simp [hpubnil, amt_nil]
+      · intro d; rw [hE d]; have := amt_nonneg hpubnn d; simp only [List.length_nil] at *; omega
       · intro d
-        simp only [addDust, hE d, hpubnil, rewardShare, List.map_nil, amt_nil, List.length_nil]
+        simp only [addDust, hE d, rewardShare, List.map_nil, amt_nil, List.length_nil]
         simp
-    · have hn : (0 : Int) < (L.length : Int) := by omega
+    · have hne0 : ¬ ((L.length : Int) = 0) := by omega
+      simp only [if_neg hne0]
+      have hn : (0 : Int) < (L.length : Int) := by omega
       have hrw := rewardShare_amt hpubnn hn
       have hC : ∀ c ∈ it.invColl ++ rewardShare it.pubColl (L.length : Int), 0 ≤ c.2 := by
         intro c hc
